@@ -41,7 +41,7 @@ pub struct Gen<'r> {
     recvs: &'static std::collections::BTreeMap<&'static str, RecvDesc>,
 }
 
-const KEY_POOL: [&str; 8] = ["k1", "k2", "k3", "kk", "k1", "x::y", "r#k1", "r#type"];
+const KEY_POOL: [&str; 11] = ["k1", "k2", "k3", "kk", "k1", "x::y", "r#k1", "r#type", "crate", "self", "\u{e9}"];
 
 impl<'r> Gen<'r> {
     fn id(&mut self) -> u32 {
@@ -75,7 +75,7 @@ impl<'r> Gen<'r> {
     }
 
     fn bad_list(&mut self) -> Form {
-        Form::BadList(self.rng.pick(&["b c", "= 3", "1 2", ", ,", "x = ", "a b = 1", "+"]).to_string())
+        Form::BadList(self.rng.pick(&["b c", "= 3", "1 2", ", ,", "x = ", "a b = 1", "+", "type = 1", "a = 1, fn", "true = false", "a, type(x)", "a::<T> = 1", "a = 1; b = 2", "a = 1 b = 2"]).to_string())
     }
 
     /// An item named `name` meant for a value of type `ty`.
@@ -589,7 +589,7 @@ impl<'r> Gen<'r> {
         }
         // unknown names
         while self.mistake(self.cfg.allow.unknown && !fields.iter().any(|f| f.flatten && matches!(f.ty, Ty::Map { .. })), 10) {
-            let base = self.rng.pick(&["zz", "qq", "nope", "aa", "longNam", "inne", "r#type", "r#a", "x::a", "::zz"]).to_string();
+            let base = self.rng.pick(&["zz", "qq", "nope", "aa", "longNam", "inne", "r#type", "r#a", "x::a", "::zz", "crate", "self", "\u{e9}t\u{e9}", "super::x", "Self"]).to_string();
             let form = match self.rng.below(3) {
                 0 => Form::Word,
                 1 => Form::NV(Value::Int("1".into())),
@@ -831,7 +831,14 @@ impl<'r> Gen<'r> {
         if names.is_empty() {
             return out;
         }
-        let parts = if items.is_empty() { self.rng.below(2) } else { self.rng.range(1, 4).min(items.len().max(1)) };
+        let parts = if items.is_empty() {
+            self.rng.below(2)
+        } else if self.rng.pct(4) {
+            // many attributes on one element
+            self.rng.range(5, 30)
+        } else {
+            self.rng.range(1, 4).min(items.len().max(1))
+        };
         let mut chunks: Vec<Vec<Nested>> = vec![Vec::new(); parts];
         if parts > 0 {
             // keep source order: cut the sequence at random points
@@ -919,12 +926,12 @@ impl<'r> Gen<'r> {
         match style {
             0 => FieldsDoc::Unit,
             1 => {
-                let n = self.rng.below(4);
+                let n = if self.rng.pct(4) { self.rng.range(5, 30) } else { self.rng.below(4) };
                 FieldsDoc::Named((0..n).map(|i| self.body_field_doc(leaf, Some(format!("f{}", i)))).collect())
             }
             2 => FieldsDoc::Tuple(vec![self.body_field_doc(leaf, None)]),
             _ => {
-                let n = *self.rng.pick(&[0usize, 2, 3]);
+                let n = if self.rng.pct(4) { self.rng.range(4, 20) } else { *self.rng.pick(&[0usize, 2, 3]) };
                 FieldsDoc::Tuple((0..n).map(|_| self.body_field_doc(leaf, None)).collect())
             }
         }
@@ -956,7 +963,7 @@ impl<'r> Gen<'r> {
             return Body::Union((0..n).map(|i| self.body_field_doc(None, Some(format!("u{}", i)))).collect());
         }
         if r < 45 {
-            let n = self.rng.below(5);
+            let n = if self.rng.pct(4) { self.rng.range(5, 25) } else { self.rng.below(5) };
             return Body::Enum((0..n).map(|i| self.variant_doc(vleaf.as_ref(), i)).collect());
         }
         let style = self.rng.below(4);
@@ -964,7 +971,7 @@ impl<'r> Gen<'r> {
     }
 
     fn generics_doc(&mut self, tr: Option<&'static str>) -> Vec<TParamDoc> {
-        let n = self.rng.below(4);
+        let n = if self.rng.pct(4) { self.rng.range(4, 12) } else { self.rng.below(4) };
         (0..n)
             .map(|i| {
                 let id = self.id();
